@@ -32,7 +32,8 @@ fn wipe_xdg(ws: &Workspace) {
 fn setup() -> Result<Env, String> {
     let mut cfg = TomlCfg::basic("prj");
     cfg.exclude_std = false;
-    let ws = Workspace::new("c05s", "prj");
+    let mut ws = Workspace::new("c05s", "prj");
+    ws.timeout = crate::c05::CMD_TIMEOUT;
     ws.write("Veryl.toml", &cfg.render());
     ws.write("src/a.veryl", SRC_A);
     ws.write("src/b.veryl", SRC_B);
@@ -41,7 +42,7 @@ fn setup() -> Result<Env, String> {
     let log_s = log_path.to_string_lossy().into_owned();
     let r = veryl_env(&ws, &["build"], &[("VERYL_VERIF_LOG", &log_s), COUNTING]);
     if r.timed_out || r.code != Some(0) {
-        return Err(format!("std-enabled probe project does not build: exit {:?}\n{}", r.code, r.tail(8)));
+        return Err(format!("std-enabled probe project does not build: exit {:?} timed out {}", r.code, r.timed_out));
     }
     let clean = SeqRes {
         cmds: vec![CmdRes::of("build", &r)],
